@@ -167,7 +167,7 @@ Definition wp_ok (c : wchunk) (p : wpage) : Prop :=
   0 < w_rows p /\ w_rows p < 2 ^ 31 /\ (wc_optional c = false -> w_nonnull p = w_rows p) /\
   match p with
   | WPlainP cells => wc_type c <> BOOLEAN /\ Forall (fun v => value_ok (wc_type c) (wc_tlen c) v = true) (somes cells)
-  | WDictP codes => k_ok (wc_k c) /\ Forall (fun x => x < 256 ^ N.of_nat (wc_k c)) (somes codes) /\ wc_labels c <> None
+  | WDictP codes => k_ok (wc_k c) /\ Forall (fun x => 2 * x < 256 ^ N.of_nat (wc_k c)) (somes codes) /\ wc_labels c <> None
   end.
 
 Definition w_v1_header (p : wpage) : dph :=
@@ -195,7 +195,8 @@ Proof.
     + rewrite !lenN_ok in FULL. f_equal. apply all_some. lia.
     + rewrite OPT. now rewrite (cells_of_mask (A:=unit) pc []).
   - (* categorical: codes *)
-    destruct OK as (K & CK & LB). destruct (wc_labels c) as [labels|] eqn:LBL; [|now contradiction LB].
+    destruct OK as (K & CK2 & LB).
+    assert (CK : Forall (fun x => x < 256 ^ N.of_nat (wc_k c)) (somes codes)) by (eapply Forall_impl; [|exact CK2]; cbn beta; intros; lia). destruct (wc_labels c) as [labels|] eqn:LBL; [|now contradiction LB].
     destruct (dict_cells labels codes cells [] PC) as (LK & MK & LN).
     cbn [Z.eqb E_PLAIN E_RLE_DICT E_PLAIN_DICT orb Pos.eqb].
     unfold wr_dict_indices. cbn [app].
@@ -321,7 +322,8 @@ Proof.
       rewrite LB, N.eqb_refl, PR. f_equal. apply all_some. rewrite !lenN_ok in Z0, LE. lia.
     + rewrite RAW, PR. now apply SC.
   - (* categorical *)
-    destruct OK as (K & CK & LB). destruct (wc_labels c) as [labels|] eqn:LBL; [|now contradiction LB].
+    destruct OK as (K & CK2 & LB).
+    assert (CK : Forall (fun x => x < 256 ^ N.of_nat (wc_k c)) (somes codes)) by (eapply Forall_impl; [|exact CK2]; cbn beta; intros; lia). destruct (wc_labels c) as [labels|] eqn:LBL; [|now contradiction LB].
     destruct (dict_cells labels codes cells [] PC) as (LK & MK & LN).
     cbn [Z.eqb E_PLAIN E_RLE_DICT E_PLAIN_DICT E_RLE orb Pos.eqb].
     rewrite RAW.
